@@ -156,6 +156,36 @@ def run(repo: Repo, chk: Check, thorough: bool = False) -> None:
            'zlib.decompressobj(): what was inflated before the damage is kept' if incr and not oneshot else
            'zlib.decompress() is all-or-nothing: an objects.inv cut short by a few bytes (interrupted download) yields no entry at all, although almost '
            'every line is recoverable - "usable lines in the same file still resolve" does not hold', repo.loc(gp.mod, inflate[0]))
+    # the recovery feed: a decompressor raises for the WHOLE chunk it was given, the bytes that chunk had already inflated are lost with the exception.
+    # "What precedes the damage is kept" therefore needs the feed inside the recovery loop to be one byte wide (zlib API fact; a wider stride loses up
+    # to a chunk of good lines, and everything of an inventory smaller than the chunk)
+    for c in inflate:
+        lp = next((p_ for p_ in parents(c) if isinstance(p_, (ast.For, ast.While))), None)
+        if lp is None or c in oneshot or not c.args:
+            continue
+        a = c.args[0]
+        width: Optional[str] = None
+        if isinstance(lp, ast.For) and isinstance(lp.target, ast.Name) and isinstance(lp.iter, ast.Call) and call_name(lp.iter) == 'range':
+            iv = lp.target.id
+            step = lp.iter.args[2] if len(lp.iter.args) == 3 else None
+            step_one = step is None or (isinstance(step, ast.Constant) and step.value == 1)
+            if isinstance(a, ast.Subscript) and isinstance(a.slice, ast.Slice) and isinstance(a.slice.lower, ast.Name) and a.slice.lower.id == iv and \
+                    isinstance(a.slice.upper, ast.BinOp) and isinstance(a.slice.upper.op, ast.Add) and a.slice.step is None:
+                ops = [a.slice.upper.left, a.slice.upper.right]
+                other = [o for o in ops if not (isinstance(o, ast.Name) and o.id == iv)]
+                if len(other) == 1:
+                    one = isinstance(other[0], ast.Constant) and other[0].value == 1
+                    width = '1' if (one and step_one) else f'{norm(other[0])} (range step {norm(step) if step is not None else 1})'
+        elif isinstance(lp, ast.For) and isinstance(lp.target, ast.Name) and isinstance(a, ast.Call) and call_name(a) == 'bytes' and len(a.args) == 1 and \
+                isinstance(a.args[0], (ast.List, ast.Tuple)) and len(a.args[0].elts) == 1 and norm(a.args[0].elts[0]) == lp.target.id:
+            width = '1'
+        if width is None:
+            raise AnalysisError(f'R17.3: the recovery feed `{norm(c)[:60]}` in _getPayload is not of a recognised form (x[i:i + 1] over range(len(x)), or bytes([b]))')
+        chk.ob('R17.3', f'{READER}._getPayload :: the recovery feed is one byte wide', width == '1',
+               'decompress(x[i:i + 1]) for every i: an exception loses at most the damaged byte' if width == '1' else
+               f'the recovery loop feeds chunks of width {width}: decompress() raises for the whole chunk that contains the damage, so what that chunk had already inflated is '
+               'lost - an inventory whose compressed part is smaller than the chunk (any small project) yields no entry at all after one damaged byte, larger ones lose dozens of '
+               'usable lines in front of the damage', repo.loc(gp.mod, c))
     # stage 2, decode: a line that is not UTF-8 must not take the other lines with it
     dec = [c for c in calls_in(gp) if call_name(c) == 'decode']
     if not dec:
